@@ -31,6 +31,10 @@ const FAMS: &[Fam] = &[
     Fam { key: "int:big", ty: "'int", exprs: &["99999999999999999999", "[99999999999999999998, 1] __integer_add__"], tuple: false, module_field: None },
     Fam { key: "bin:0102", ty: "'bin", exprs: &["0x0102", "[0x01, 0x02] __binary_concat__", "[0x010203, 0, 2] __binary_slice__", "[[0x01, 0x02] __binary_concat__, 3] fst"], tuple: false, module_field: Some("b") },
     Fam { key: "bin:0103", ty: "'bin", exprs: &["0x0103", "[0x01, 0x03] __binary_concat__"], tuple: false, module_field: None },
+    // the same bytes as tilings of different unit length, as zero-fill, as literal, as concat
+    Fam { key: "bin:abx4", ty: "'bin", exprs: &["0xabababab", "[0xab, 4] __binary_repeat__", "[0xabab, 2] __binary_repeat__", "[0xabab, 0xabab] __binary_concat__", "[[0xab, 2] __binary_repeat__, 2] __binary_repeat__"], tuple: false, module_field: None },
+    Fam { key: "bin:abx6", ty: "'bin", exprs: &["[0xab, 6] __binary_repeat__", "[0xababab, 2] __binary_repeat__", "[0xabab, 3] __binary_repeat__"], tuple: false, module_field: None },
+    Fam { key: "bin:zero4", ty: "'bin", exprs: &["0x00000000", "4 __binary_new__", "[0x00, 4] __binary_repeat__", "[0x0000, 2] __binary_repeat__", "[2 __binary_new__, 2] __binary_repeat__"], tuple: false, module_field: None },
     Fam { key: "bin:empty", ty: "'bin", exprs: &["0x", "[0x01, 0, 0] __binary_slice__"], tuple: false, module_field: None },
     Fam { key: "P{x:1,y:0102}", ty: "P[x: 'int, y: 'bin]", exprs: &["P[x: 1, y: 0x0102]", "P[x: [0, 1] __integer_add__, y: [0x01, 0x02] __binary_concat__]", "P[x: 1 wd, y: 0x0102]", "P[x: 9, y: 0x0102] ~[..., x: 1]", "[x: 1] P[..., y: 0x0102]", "P[x: 1, y: 0x0102] idg", "[P[x: 1, y: [0x01, 0x02] __binary_concat__], 3] fst"], tuple: true, module_field: Some("p") },
     Fam { key: "P{x:2,y:0102}", ty: "P[x: 'int, y: 'bin]", exprs: &["P[x: 2, y: 0x0102]", "P[x: [1, 1] __integer_add__, y: 0x0102]", "P[x: 2 wd, y: 0x0102]"], tuple: true, module_field: None },
